@@ -3,9 +3,9 @@ history of directory mutations, clock advances and listing requests against the
 REAL DirHandler cache in a scratch world.
 
 Clock advances are realised without any hook in the code under test: advancing the
-clock by k whole seconds is the same, for `time.time() - st_mtime`, as moving the
-cache file's mtime k seconds into the past (os.utime); sub-second advances are real
-sleeps.  Runs inside the implementation's interpreter (see impl_driver.py)."""
+clock by k whole seconds is the same, for every `time.time() - st_mtime` and every
+comparison of two mtimes, as moving ALL timestamps of the tree k seconds into the past
+(os.utime); sub-second advances are real sleeps.  Runs inside the implementation's interpreter (see impl_driver.py)."""
 import hashlib
 import os
 import re
@@ -36,6 +36,7 @@ def _audit(event, args):
 sys.addaudithook(_audit)
 
 _LM = re.compile(rb"\r\nLast-Modified: [^\r\n]*")
+_MD = re.compile(rb" Mod-Date: [^\r\n]*")
 
 
 def mask(out):
@@ -44,7 +45,27 @@ def mask(out):
     head, sep, body = out.partition(b"\r\n\r\n")
     if sep and head.startswith(b"HTTP/"):
         return _LM.sub(b"\r\nLast-Modified: <T>", head) + sep + body
-    return out
+    # absolute modification dates (Gopher+ +ADMIN): a clock advance is realised by moving every
+    # timestamp of the tree into the past, which changes their absolute values
+    return _MD.sub(b" Mod-Date: <T>", out)
+
+
+def age_tree(root, seconds):
+    """Advance the clock by `seconds` whole seconds as seen from every timestamp in the tree:
+    all mtimes (files, directories, cache files) move `seconds` into the past, so that every
+    age and every ORDER between two timestamps is what it would be after a real wait."""
+    paths = []
+    for r, dirs, files in os.walk(root):
+        paths.append(r)
+        for fn in files:
+            paths.append(os.path.join(r, fn))
+    d = seconds * 10 ** 9
+    for p in paths:
+        try:
+            st = os.lstat(p)
+            os.utime(p, ns=(st.st_atime_ns - d, st.st_mtime_ns - d), follow_symlinks=False)
+        except OSError:
+            pass
 
 
 def digest(b):
@@ -157,20 +178,17 @@ def c10_history(job, drv):
                             "refs": references(drv, cfg_ref, protokeys)})
             elif k == "tick":
                 s = int(o["s"])
-                try:
-                    st = os.stat(cachepath)
-                    os.utime(cachepath, ns=(st.st_atime_ns, st.st_mtime_ns - s * 10 ** 9))
-                except OSError:
-                    pass
+                if s:
+                    age_tree(w.root, s)
                 shift += s
                 res.append({"op": "tick", "shift_s": shift})
             elif k == "sleep":
                 time.sleep(o["ms"] / 1000.0)
                 res.append({"op": "sleep"})
-            elif k == "list":
-                rq = protokeys[o["key"]]
+            elif k in ("list", "probe"):
+                rq = (protokeys if k == "list" else job["probekeys"])[o["key"]]
                 r = observed_request(drv, w.config, cachepath, drv.s2b(rq["data"]), rq["tls"])
-                r["op"] = "list"
+                r["op"] = k
                 r["key"] = o["key"]
                 r["shift_s"] = shift
                 res.append(r)
